@@ -394,7 +394,9 @@ def power_divergence(X, Y, Z, data, boolean=True, lambda_="cressie-read", **kwar
                 c, _, d, _ = stats.chi2_contingency(contingency, lambda_=lambda_)
                 chi += c
                 dof += d
-        p_value = 1 - stats.chi2.cdf(chi, df=dof)
+        # With no degrees of freedom left (every stratum degenerate) there is no
+        # evidence against independence, as for the unconditional test.
+        p_value = 1 - stats.chi2.cdf(chi, df=dof) if dof > 0 else 1.0
 
     # Step 4: Return the values
     if boolean:
